@@ -10,6 +10,7 @@ from .values import ClassRef, ExcV, HObj, Opaque, Ref, fresh_name, is_sym
 
 
 class VerifyMixin:
+    frame_report = None
     racy_reads = None
     background = None
     ieee_checks = True
@@ -285,7 +286,11 @@ class VerifyMixin:
         # declared by the contract's effects -- callers are checked against the contract only, so an undeclared
         # modification would let them reason with stale values
         if not c.top_level and not c.inline and os.environ.get('PYVC_NO_FRAME') != '1':
+            nf = len(self.obligations)
             self.root_frame_obligations(c, finfo, args, self_val, pre, terminals)
+            self.frame_report.setdefault('checked', {})[c.target + suffix] = len(self.obligations) - nf
+        elif c.top_level:
+            self.frame_report.setdefault('top_level_not_checked', []).append(c.target + suffix)
         # must-fail twins: wrong variants of postconditions have to be refutable on some path
         twin_goals = {}
         for o, s1 in terminals:
